@@ -192,7 +192,8 @@ def _g_method(rng, n_phases, exact):
             ops += g_actions(rng, sc_, 0, budget)
         if not any(op[0] == "stmt" and op[1][0] == "yield" for op in ops) and rng.random() < 0.6:
             ops.append(["stmt", ["yield", V("<state>y"), V("<t>"), "final", "y"]])
-        phases.append({"name": PHASES[k], "next": rng.choice(PHASES[:n]), "prog": ops})
+        names = PHASES if n <= len(PHASES) else [f"p{i}" for i in range(n)]
+        phases.append({"name": names[k], "next": rng.choice(names[:n]), "prog": ops})
     for ph in phases:       # switch targets must exist
         for op in ph["prog"]:
             if op[0] == "stmt" and op[1][0] == "switch" and op[1][1] not in [p["name"] for p in phases]:
@@ -234,6 +235,14 @@ def make_generator(module_name="meth", **kw):
         ${lo} = 2*${y}
         ${hi} = -${y}
         """))
+    # a user function whose FIRST result is a scalar and whose second is a user type
+    from dagrt.data import Scalar
+    freg = register_function(freg, "<func>rate", ("y",), result_names=("lam", "k"),
+                             result_kinds=(Scalar(True), UserType("y")))
+    freg = freg.register_codegen("<func>rate", "fortran", f.CallCode("""
+        ${lam} = 0.5d0
+        ${k} = -${y}
+        """))
     return f.CodeGenerator(module_name, function_registry=freg,
                            user_type_map={"y": f.ArrayType((N,), f.BuiltinType("real*8"))},
                            timing_function="second", **kw)
@@ -246,7 +255,13 @@ def fortran_text(m, module_name="meth"):
     with contextlib.redirect_stdout(buf):          # kind inference prints its left-overs
         try:
             # "trace": the generator's own option that makes the module narrate what it does (write statements)
-            return make_generator(module_name, **({"trace": True} if m.get("trace") else {}))(build_code(m))
+            # "instrument": the generator's profiling option (counters and timers around every phase)
+            kw = {}
+            if m.get("trace"):
+                kw["trace"] = True
+            if m.get("instrument"):
+                kw["emit_instrumentation"] = True
+            return make_generator(module_name, **kw)(build_code(m))
         except Exception as e:
             e.args = (str(e) + " | " + buf.getvalue()[-300:].replace("\n", " / "),)
             raise
@@ -376,7 +391,8 @@ def run_interpreter(m):
     from dagrt.exec_numpy import FailStepException, NumpyInterpreter, TransitionEvent
     warnings.simplefilter("ignore", RuntimeWarning)        # overflow to infinity is part of some methods
     code = build_code(m)
-    interp = NumpyInterpreter(code, {"<func>rhs": lambda t, y: -2 * y + t, "<func>split": lambda y: (2 * y, -y)})
+    interp = NumpyInterpreter(code, {"<func>rhs": lambda t, y: -2 * y + t, "<func>split": lambda y: (2 * y, -y),
+                                     "<func>rate": lambda y: (0.5, -y)})
     interp.set_up(t_start=float(m["t0"]), dt_start=float(m["dt"]), context={"y": np.array([float(v) for v in m["y0"]])})
     interp.context["<p>k"] = float(m["k0"])
     phase_ids = {name: k for k, name in enumerate(sorted(code.phases))}
